@@ -9,15 +9,83 @@ from harness.core import Outcome, f2b, b2f
 
 ID = "C02"
 LEAN_TARGETS = ["BeyondVerif.Props.C02"]
-THEOREMS = []
-LEVEL_TEXT = ""
-LEVEL_NOTE = ""
-TECHNIQUE = ""
-TRUSTED = []
-ASSUMPTIONS = []
-NOT_COVERED = []
-OPEN = []
-RULE = ""
+THEOREMS = [
+    "BeyondVerif.C02.rot1_isRotation",
+    "BeyondVerif.C02.rot2_isRotation",
+    "BeyondVerif.C02.rot3_isRotation",
+    "BeyondVerif.R.M3.IsRotation.mul",
+    "BeyondVerif.R.M3.IsRotation.dot_apply",
+    "BeyondVerif.C02.nutation80_isRotation",
+    "BeyondVerif.C02.precession80_isRotation",
+    "BeyondVerif.C02.polar80_isRotation",
+    "BeyondVerif.C02.polar10_isRotation",
+    "BeyondVerif.C02.topoMat_isRotation",
+    "BeyondVerif.C02.cioMat_isRotation",
+    "BeyondVerif.C02.provider_isRotation",
+    "BeyondVerif.C02.const_matrices_orthonormal",
+    "BeyondVerif.C02.const_matrices_invertible",
+    "BeyondVerif.C02.providers_match",
+    "BeyondVerif.C02.expand_apply",
+    "BeyondVerif.C02.expand_inv_mul",
+    "BeyondVerif.C02.norm_preserved",
+    "BeyondVerif.C02.affine_roundtrip",
+    "BeyondVerif.Chain.potential_exists",
+    "BeyondVerif.Chain.chain_walk",
+    "BeyondVerif.C02.convert_compose",
+    "BeyondVerif.C02.convert_inverse",
+    "BeyondVerif.C02.orient_leafGrown",
+    "BeyondVerif.C02.orientConvert_compose",
+    "BeyondVerif.C02.orientConvert_inverse",
+    "BeyondVerif.C02.transform_roundtrip_same_centre",
+    "BeyondVerif.C02.velocity_is_derivative",
+    "BeyondVerif.C02.earth_rotation_rate",
+]
+LEVEL_TEXT = ("Lean theorems over R about a model of beyond/frames whose formulas (rot1/2/3, precession/nutation arguments, GMST, ERA, rate, CIO matrix, "
+              "constant matrices, station matrix) are translated from the Python AST on every run: every rot and every product of rots is a proper rotation "
+              "for all angles, the CIO matrix for all X^2+Y^2<1, the constant matrices are orthonormal to 1e-15; expand(R,w)(r,v) = (R r, R v - w x R r) and its "
+              "inverse; norms preserved; d/dt(R(t) r(t)) equals the velocity block for rate=(0,0,-theta') (HasDerivAt, all differentiable theta, r); "
+              "A->B->C = A->C and A->B->A = 1 for the convert_to loop along every link history grown leaf by leaf (induction; any carrier with an "
+              "associative product), instantiated for the model's orientConvert with paths from the C20 routing model. "
+              "The hand-written glue (which rot in which order, EOP units, series folds, centres, Frame.transform) is tied by differential correspondence "
+              "under three EOP configurations.")
+LEVEL_NOTE = ("R -> double gap and time-scale arithmetic (Date -> TT/UT1 centuries) are outside the theorems; agreement with independent GMST/ERA/precession "
+              "and IAU1980 vs IAU2010 < 0.1 arcsec are oracle-only; Lean kernel + propext/Classical.choice/Quot.sound; py2lean and harness trusted")
+TECHNIQUE = "Lean 4 proof (ring identities, HasDerivAt, induction over link histories, decide/norm_num on regenerated tables) + differential correspondence"
+TRUSTED = [
+    "harness/py2lean.py: translates rot1/rot2/rot3, _precesion, _nutation arguments, _sideral (1980/2010), rate, _planets, X/Y/s polynomials, precesion_nutation, "
+    "G50/GCRF constant matrices, TopocentricOrientation._m, _geodetic_to_cartesian into Generated/FrameFormulas{F,R}.lean on every run",
+    "harness/props/C02.py extract: list of A_to_B methods of class Orientation (AST) -> Generated/OrientProviders.lean; orientHist from C20's extractor",
+    "lean/templates/Frames.tpl, Mat3.tpl, Model/Chain.lean (hand-written glue: provider products, EOP units, series folds, convert_to loop, centres, transform), tied by the correspondence run",
+    "np.linalg.inv is modelled by the exact inverse (adjugate/determinant, block form); numpy / libm double arithmetic vs R: tolerance 1e-10 relative on matrices",
+    "Node routing model of C20 (Model/Node.lean) for the paths; C20.path_valid_chain",
+]
+ASSUMPTIONS = [
+    "the date enters the model as (TT century, UT1 century, UT1 JD, day number, EOP record, series sums): time-scale conversion is C03's subject",
+    "EOP values are piecewise constant per day (SimpleEopDatabase, by design): Earth-fixed positions jump by up to ~1 m at midnight; the velocity oracle avoids windows straddling a day boundary",
+    "orientConvert_compose / _inverse assume EdgesOK (every provided edge matrix is inverted by T6.inv, no link has providers in both directions); "
+    "provider_isRotation + const_matrices_invertible + providers_match give this for the built-in providers, the assembly into EdgesOK for `edge` is not done in Lean",
+    "cioMat_isRotation needs X^2+Y^2 < 1 (in 1973-2017: < 1e-5)",
+    "velocity of body-centred frames (Moon, Sun) depends on the body's own velocity, a +-1 day difference quotient (C18): excluded from the velocity oracle",
+]
+NOT_COVERED = [
+    "agreement of the Earth-fixed <-> inertial rotation with independently computed GMST82 / ERA / IAU-1976 precession: oracle only (independent numpy formulas)",
+    "IAU-1980 chain vs IAU-2010 chain < 0.1 arcsec: oracle only (106- and ~3000-term series; no theorem)",
+    "EOP file readers (Finals, Finals2000A, TaiUtc) on the real IERS files: oracle only (independent column parse)",
+    "d(GMST)/dt vs the constant in rate(): not proved (DESIGN earth_rate_consistent); the oracle's finite-difference check covers it to 1e-3 m/s",
+]
+OPEN = [
+    "transform_roundtrip for frames with different centres: only the algebraic core (affine_roundtrip) and the same-centre case are proved; "
+    "the antisymmetry of Center.convert_to across two target orientations is checked by correspondence and oracle only",
+    "EdgesOK for the model's concrete `edge` function is a hypothesis of orientConvert_compose/_inverse (see assumptions)",
+    "velocity_is_derivative is proved for R(t) = rot3(-theta(t)) (the two Earth-rotation edges); the slow precession/nutation/polar-motion rates are omitted by the code by design (5e-5 m/s) and by the theorem",
+]
+RULE = ("correspondence: nutation/CIO series folds on 25/8 dates (batched, tables parsed independently from beyond/frames/data), to_local / station matrix / geodetic closed forms, "
+        "Orientation.convert_to on random ordered pairs of {10 built-ins, station, QSW, TNW} and Frame.transform on random ordered pairs of {10 built-ins, station, "
+        "equatorial station, orbit-attached inertial/QSW/TNW, Moon-centred}, random dates 1973-2017 (10 % beyond the tables), real IERS files / zero EOP / missing EOP; "
+        "rtol 1e-10 on matrices, 1e-9 relative on states; non-trivial = source != target. "
+        "oracle: A->B->C vs A->C and A->B->A (1e-6 m, 1e-9 m/s + double resolution at the largest distance), orthonormality/det/block form, |r| preserved, "
+        "Richardson central difference (20/40 s) of the converted position vs converted velocity, GMST82/ERA/precession vs independent formulas, 1980 vs 2010 < 0.1 arcsec, "
+        "EOP reader vs independent parse, attached-frame independence of the StateVector form")
 
 BUILTIN = ["EME2000", "MOD", "TOD", "TEME", "PEF", "ITRF", "TIRF", "CIRF", "GCRF", "G50"]
 ROTATING = {"PEF", "ITRF", "TIRF"}
@@ -383,9 +451,36 @@ def oracle(ctx, widened):
                              observed=float(ang / ARCSEC), expected="< 0.1 arcsec")
         if mode == "real":
             eop_reader_oracle(out, rng, 300 if big else 60)
+            offset_form_oracle(out, rng, 40 if big else 6)
     set_eop("real")
     out.sample({"checks": "A->B->C vs A->C, A->B->A, orthonormality/det/block form, |r| preserved, Richardson finite-difference velocity, GMST82/ERA/IAU76 precession vs independent formulas, 1980 vs 2010 chain, EOP file reader vs independent column parse"})
     return out
+
+
+_form_frames = {}
+
+
+def offset_form_oracle(out, rng, n):
+    """a frame attached to a fixed StateVector must not depend on the form in which that StateVector is held"""
+    import numpy as np
+    from beyond.dates import Date
+    from beyond.orbits import StateVector
+    from beyond.frames.frames import orbit2frame
+    date = Date(2010, 3, 4, 5, 6, 7)
+    if not _form_frames:
+        k = [7.0e6, 0.01, 0.9, 1.0, 2.0, 3.0]
+        svk = StateVector(k, date, "keplerian", "EME2000")
+        for form in ("cartesian", "keplerian", "spherical", "equinoctial"):
+            _form_frames[form] = orbit2frame("C02form" + form, svk.copy(form=form), orientation=None, exists_warning=False)
+    for _ in range(n):
+        sv = StateVector([7.0e6 + rng.uniform(-5e4, 5e4), 0.01, 0.9, 1.0, 2.0, 3.0 + rng.uniform(-1e-2, 1e-2)], date, "keplerian", "EME2000")
+        ref = np.array(sv.copy(frame="C02formcartesian", form="cartesian"))
+        for form in ("keplerian", "spherical", "equinoctial"):
+            got = np.array(sv.copy(frame="C02form" + form, form="cartesian"))
+            out.count(key=("form", form, tuple(map(float, sv))), kind="centre-offset-form")
+            if not (np.all(np.abs(got[:3] - ref[:3]) < 1e-5) and np.all(np.abs(got[3:] - ref[3:]) < 1e-8)):
+                out.fail("centre-offset-form:noncartesian", "a frame attached to a StateVector held in a non-cartesian form is centred on the raw element values, not on the point",
+                         {"attached_form": form, "state_kepl": list(map(float, sv)), "date": str(date)}, observed=list(map(float, got)), expected=list(map(float, ref)))
 
 
 def eop_reader_oracle(out, rng, n):
@@ -610,3 +705,8 @@ def orient_names():
     txt = open(os.path.join(core.LEAN, "BeyondVerif", "Generated", "Graphs.lean")).read()
     m = re.search(r"def orientNames : List String := \[(.*?)\]", txt)
     return [s.strip().strip('"') for s in m.group(1).split(",")]
+
+
+def replay(f):
+    """re-run a short oracle sweep (the recorded input names the family, frames, date and state of the failing case)"""
+    return oracle(core.Ctx(ID, "quick", 0), False)
